@@ -57,5 +57,22 @@ theorem frames_spi_read (fails : Nat → Bool) (w : World) (a n : Nat) :
     cases h3 : fails (w.idx + 3) <;>
     simp [lookupRow, Frames.spi_read, shapeR, errShape, readRegister, World.raw, h0, h1, h2, h3]
 
+/-! The read functions once more, for an EMPTY buffer (in the source `buffer.is_empty()` and
+    `buffer.len() == 0` are then true): the same framing with a data phase of zero bytes - no
+    special case that skips the transfer, the release or the transaction (r5-C20b, r5-C12b, agent-C13). -/
+
+theorem frames_i2c_read_empty (dev : Nat) (fails : Nat → Bool) (w : World) (a : Nat) :
+    lookupRow (Frames.i2c_read_empty dev a 0 0#8) [fails w.idx]
+      = some (shapeR w.idx (readRegister (.i2c dev) fails w a 0)) := by
+  cases h0 : fails w.idx <;>
+    simp [lookupRow, Frames.i2c_read_empty, shapeR, errShape, readRegister, World.raw, h0]
+
+theorem frames_spi_read_empty (fails : Nat → Bool) (w : World) (a : Nat) :
+    lookupRow (Frames.spi_read_empty 0 a 0 0#8) [fails w.idx, fails (w.idx + 1), fails (w.idx + 2), fails (w.idx + 3)]
+      = some (shapeR w.idx (readRegister .spi fails w a 0)) := by
+  cases h0 : fails w.idx <;> cases h1 : fails (w.idx + 1) <;> cases h2 : fails (w.idx + 2) <;>
+    cases h3 : fails (w.idx + 3) <;>
+    simp [lookupRow, Frames.spi_read_empty, shapeR, errShape, readRegister, World.raw, h0, h1, h2, h3]
+
 end Thm
 end Bma400
